@@ -345,7 +345,15 @@ class Dmn(Family):
                 # an ADD_MEM_REG that overlaps an existing region in guest-physical space under a user range of its own
                 r0 = rng.choice(table)
                 bad = [r0[0], r0[1], 0x7f0000800000 + 0x10000 * rng.below(4), r0[3], r0[4]]
-            steps.append(st("add_mem", bad))
+            if table and rng.chance(1, 2):
+                # ... or a SET_MEM_TABLE that is refused only after its first region has been looked at: the first region
+                # describes the guest range of an accepted region under another user range, the second one overlaps it
+                r0 = rng.choice(table)
+                ua2 = 0x7f0000a00000 + 0x10000 * rng.below(4)
+                bad = [r0[0], r0[1], ua2, r0[3], r0[4]]
+                steps.append(st("set_mem_table", [], b"", [bad, [r0[0] + 0x1000 if r0[1] > 0x1000 else r0[0], 0x1000, ua2 + 0x100000, 0, r0[4]]]))
+            else:
+                steps.append(st("add_mem", bad))
             steps.append(st("reconnect"))
             steps.append(st("set_protocol_features", [W.PF_ALL]))
             q0 = rng.below(nq)
